@@ -181,4 +181,50 @@ theorem wellgrouped_unique : ∀ (t1 t2 : Tree α), WellGrouped t1 → WellGroup
       obtain ⟨k1, k2, k3, k4⟩ := key
       rw [ihl l2 a3 b3 hf k1, ihr r2 a4 b4 k3 k4, k2]
 
+/-! ### the grouping computed by `parseFormula` (stated as properties in Props/C02.lean) -/
+
+/-- every operator of the flat formula belongs to one of the grammar levels 1 … N -/
+def OpsIn (N : Nat) (rest : Rest α) : Prop := ∀ x ∈ rest, 1 ≤ x.1.lvl ∧ x.1.lvl ≤ N
+
+/-- The parse tree is faithful to the text: its in-order traversal is the flat formula
+    (first operand, then the operator/operand pairs it consumed). -/
+theorem parse_inorder (N : Nat) (a : α) (rest : Rest α) (h : OpsIn N rest) :
+    (parseFormula N a rest).1.first = a ∧ rest = (parseFormula N a rest).1.tail ++ (parseFormula N a rest).2 := by
+  have := parseLevel_ok N 1 a rest (fun e he => by have := h e he; omega)
+  exact ⟨this.first, this.split⟩
+
+/-- … and it accounts for the whole formula. -/
+theorem parse_consumes_all (N : Nat) (a : α) (rest : Rest α) (h : OpsIn N rest) :
+    (parseFormula N a rest).2 = [] ∧ (parseFormula N a rest).1.tail = rest := by
+  have hk := parseLevel_ok N 1 a rest (fun e he => by have := h e he; omega)
+  have hnil : (parseFormula N a rest).2 = [] := by
+    cases hr : (parseFormula N a rest).2 with
+    | nil => rfl
+    | cons x r' =>
+      obtain ⟨o, b⟩ := x
+      have hlt := hk.below o b r' hr
+      have hmem : (o, b) ∈ rest := by
+        rw [hk.split]; exact List.mem_append_right _ (by unfold parseFormula at hr; rw [hr]; exact List.mem_cons_self)
+      have h1 : 1 ≤ o.lvl := (h (o, b) hmem).1
+      omega
+  refine ⟨hnil, ?_⟩
+  have := hk.split
+  unfold parseFormula at hnil
+  rw [hnil, List.append_nil] at this
+  exact this.symm
+
+/-- The parse tree is the documented grouping: tighter levels sit below looser ones and
+    operators of one level (including `^`) group from the left. -/
+theorem parse_wellgrouped (N : Nat) (a : α) (rest : Rest α) (h : OpsIn N rest) :
+    WellGrouped (parseFormula N a rest).1 :=
+  (parseLevel_ok N 1 a rest (fun e he => by have := h e he; omega)).wg
+
+/-- The documented grouping is unique, so the parser computes *the* grouping: any
+    well-grouped tree with the same in-order sequence is the parse tree. -/
+theorem grouping_unique (N : Nat) (a : α) (rest : Rest α) (h : OpsIn N rest) (t : Tree α)
+    (hwg : WellGrouped t) (hf : t.first = a) (ht : t.tail = rest) : (parseFormula N a rest).1 = t := by
+  apply wellgrouped_unique _ t (parse_wellgrouped N a rest h) hwg
+  · rw [(parse_inorder N a rest h).1, hf]
+  · rw [(parse_consumes_all N a rest h).2, ht]
+
 end MechVerif.Prec
